@@ -66,11 +66,46 @@ pub fn worker_handle(line: &str) -> String {
             apply_env(&parse_env_field(parts[2]));
             let mut warns: Vec<char> = Vec::new();
             let mut reporter = |k: MarkerWarningKind, _m: String| warns.push(warn_code(k));
-            match Requirement::<VerbatimUrl>::parse_reporter(&text, "/", &mut reporter) {
+            // the generic parser (`Requirement<Url>`: any URL the url crate reads, no variable expansion) on the same text
+            let generic = std::panic::catch_unwind(|| Requirement::<url::Url>::from_str(&text));
+            let generic_note = |primary: &Result<Requirement<VerbatimUrl>, Pep508Error<VerbatimUrl>>| -> &'static str {
+                if cfg!(feature = "ext") { return ""; }
+                let Ok(g) = &generic else { return " GENERIC-DIFFER:panic" };
+                match (primary, g) {
+                    (Ok(r), Ok(g)) => {
+                        let vu_same = match (&r.version_or_url, &g.version_or_url) {
+                            (None, None) => true,
+                            (Some(VersionOrUrl::VersionSpecifier(a)), Some(VersionOrUrl::VersionSpecifier(b))) => a == b,
+                            (Some(VersionOrUrl::Url(a)), Some(VersionOrUrl::Url(b))) => text.contains('$') || a.to_url().as_str() == b.as_str(),
+                            _ => false,
+                        };
+                        // Display of the borrowed view is Display of the owned one; clear_url removes a URL and nothing else
+                        let view_same = r.version_or_url.as_ref().map(|v| pep508_rs::VersionOrUrlRef::from(v).to_string() == v.to_string()).unwrap_or(true);
+                        let mut cleared = r.clone();
+                        cleared.clear_url();
+                        let clear_ok = cleared.name == r.name && cleared.extras == r.extras && cleared.marker == r.marker
+                            && match &r.version_or_url { Some(VersionOrUrl::Url(_)) => cleared.version_or_url.is_none(), other => cleared.version_or_url == *other };
+                        if r.name != g.name || r.extras != g.extras || r.marker != g.marker || !vu_same { " GENERIC-DIFFER:components" }
+                        else if !view_same { " GENERIC-DIFFER:VersionOrUrlRef" } else if !clear_ok { " GENERIC-DIFFER:clear_url" } else { "" }
+                    }
+                    (Ok(_), Err(_)) => " GENERIC-DIFFER:rejected",
+                    (Err(e), Ok(_)) => if matches!(e.message, Pep508ErrorSource::UrlError(_)) { "" } else { " GENERIC-DIFFER:accepted" },
+                    (Err(e), Err(ge)) => if matches!(e.message, Pep508ErrorSource::UrlError(_)) || (e.start == ge.start && e.len == ge.len) { "" } else { " GENERIC-DIFFER:span" },
+                }
+            };
+            let primary = Requirement::<VerbatimUrl>::parse_reporter(&text, "/", &mut reporter);
+            let gnote = generic_note(&primary);
+            match primary {
                 Ok(r) => {
                     // the other entry point must agree
                     let same = match Requirement::<VerbatimUrl>::from_str(&text) { Ok(r2) => r2 == r, Err(_) => false };
-                    format!("{}{}", req_line(&r, &warns), if same { "" } else { " ENTRYPOINTS-DIFFER" })
+                    format!("{}{}{gnote}", req_line(&r, &warns), if same { "" } else { " ENTRYPOINTS-DIFFER" })
+                }
+                Err(e) if !gnote.is_empty() => {
+                    let rendered = std::panic::catch_unwind(std::panic::AssertUnwindSafe(|| e.to_string())).ok();
+                    let disp = rendered.is_some();
+                    let boundary = e.start <= text.len() && text.is_char_boundary(e.start);
+                    format!("err {} {} {} disp={} boundary={}{}{gnote}", err_kind(&e), e.start, e.len, disp as u8, boundary as u8, ul_field(rendered))
                 }
                 Err(e) => {
                     let rendered = std::panic::catch_unwind(std::panic::AssertUnwindSafe(|| e.to_string())).ok();
@@ -269,6 +304,7 @@ fn corr_part(ans: &str) -> String {
         "panic".to_string()
     } else {
         let a = ans.replace(" ENTRYPOINTS-DIFFER", "");
+        let a = match a.find(" GENERIC-DIFFER:") { Some(i) => a[..i].to_string(), None => a };
         match a.find(" shown=") { Some(i) => a[..i].to_string(), None => a }
     }
 }
@@ -309,6 +345,7 @@ pub fn req_case(out: &mut Out, w: &mut Worker, rc: &mut ReqCases, prop: &str, te
         // with the extension feature a text after `@` that is not a URL is a path: relative to the working
         // directory `parse_reporter` is given, an error for `from_str`, which has none — a documented difference
         if ans.contains("ENTRYPOINTS-DIFFER") && !cfg!(feature = "ext") { out.oracle_fail(prop, "Requirement::from_str and Requirement::parse_reporter disagree", input.clone()); }
+        if let Some((_, why)) = ans.split_once(" GENERIC-DIFFER:") { out.oracle_fail(if prop == "C08" { "C08" } else { "C07" }, &format!("the generic parser Requirement<Url> and Requirement<VerbatimUrl> disagree on the same text ({why})"), input.clone()); }
     }
     ans
 }
